@@ -18,7 +18,7 @@ pub static C07: CheckSpec = CheckSpec {
     level: "exploration",
     scenarios: &[Scenario { name: "table-history", weight: 1, run: c07_run }],
     runs_quick: 400_000,
-    runs_thorough: 20_000_000,
+    runs_thorough: 7_000_000,
     cap_quick_s: 60,
     cap_thorough_s: 900,
     rule: "one run = one generated history (8..170 operations: insert_or_update / update_node_status / update_node / remove / entry API / iter / lookups / clock advance) on a real KBucketsTable whose key pool sits in 1-4 hot buckets (low, middle and high indices) with a per-run incoming limit 0..16 and pending timeout in {0,1ms,40ms,1s,60s,never}; every run is non-trivial (invariants are evaluated after every operation); distinct = distinct hash of the abstract operation/result log",
@@ -33,7 +33,7 @@ pub static C08: CheckSpec = CheckSpec {
     level: "exploration",
     scenarios: &[Scenario { name: "table-lookups", weight: 1, run: c08_run }],
     runs_quick: 300_000,
-    runs_thorough: 15_000_000,
+    runs_thorough: 7_000_000,
     cap_quick_s: 60,
     cap_thorough_s: 900,
     rule: "same histories as C07; at lookup steps and at the end of each run closest_keys / closest_values / closest_values_predicate (3 targets: local id, stored ids, ids at a chosen log2 distance 0..256 with the low bits set, random) are compared with the sorted post-iteration full scan, and nodes_by_distances (distinct distances incl. 0, >256, u64::MAX; cap 1..20) with the stored nodes at those distances; distinct = distinct hash of the operation/result log; the order in which the closest-node lookups and the distance lookups touch the table after each operation is chosen per check (both apply pending nodes whose timeout has run out); a fifth of the closest-iteration targets have a distance built word by word (64-bit) from runs of set and clear bits, single bits and their complements, and buckets around the word boundaries (63-65, 127-129, 191-193) are populated more often than chance; one distance list in ten is long (200-400 distinct out-of-range values, sometimes every in-range distance as well) with the occupied distances at the front, at the end or anywhere between",
@@ -48,7 +48,7 @@ pub static C16: CheckSpec = CheckSpec {
     level: "exploration",
     scenarios: &[Scenario { name: "ip-table-history", weight: 1, run: worlds::iptable::run }],
     runs_quick: 60_000,
-    runs_thorough: 6_000_000,
+    runs_thorough: 3_500_000,
     cap_quick_s: 60,
     cap_thorough_s: 900,
     rule: "one run = one generated history (20..320 operations: insert_or_update, record updates that may move a node to another /24, status updates, removals, Entry API, iteration, clock advances around the 60 s pending timeout) on the routing table of a Discv5 built with ip_limit (real IpTableFilter/IpBucketFilter), over 30..150 real signed records drawn from 1-3 /24 subnets plus address-less and IPv6-only fillers, with an optional fill burst so that full buckets with pending candidates occur; per-bucket and per-table /24 counts are checked after every operation; distinct = distinct hash of the operation/result log; an eighth of the IPv4 records carry an IPv4 address without a UDP port, another eighth IPv4 and IPv6 endpoints together; a quarter of the operations after a candidate became pending are aimed at that candidate (status reports, record updates, entry operations); the node listens on IPv4, IPv6 only or both",
@@ -70,7 +70,7 @@ pub static C09: CheckSpec = CheckSpec {
         Scenario { name: "full-stack", weight: 1, run: f_c09 },
     ],
     runs_quick: 600_000,
-    runs_thorough: 60_000_000,
+    runs_thorough: 18_000_000,
     cap_quick_s: 60,
     cap_thorough_s: 900,
     rule: "one run = one generated event order (poll / success with 0..6 returned peers that are new, duplicate, closer, farther or the target itself / failure / silence past the peer timeout / late success / answers for never-asked or unknown peers) against a real FindNodeQuery or PredicateQuery (direct) or a real QueryPool with 1-3 concurrent queries and a query timeout (pool), parallelism 1..5, k 0..20, followed by a fault-free drain phase with a step bound (liveness); non-trivial = at least one fault-like event fired (failure, late success, silence, answer for a non-outstanding peer); distinct = distinct hash of the event log; service-lookup: a real service with a scripted handler whose FINDNODEs are answered honestly, maliciously or with failures; Scenario 'full-stack': 2-5 complete honest Discv5 nodes (API, service, handler, tables) on the virtual network with drop/duplicate/delay/bit-flip/late-replay/partition/restart faults and API calls (find_node incl. targets adjacent to a peer's id, send_ping, talk_req, find_node_designated_peer); every API future must return within a bound after the faults stop; pool runs also check the query timeout itself: a poll that examined every query and had nothing to do must not leave a query in the pool whose clock (started at the latest at the first poll that certainly examined it) has run for the query timeout; service-lookup: peers may stay silent (reported as failed after 3 s, as the handler would), and after the first lookup a second one runs while requests of the first are still being answered (answers to an ended lookup must not count for the next); requests count as in flight until answered, or until the lookup's peer timeout for silent peers; in the pool scenario one lookup in ten has parallelism 0: it can ask nobody and must still end, by the query timeout",
@@ -90,7 +90,7 @@ pub static C10: CheckSpec = CheckSpec {
         Scenario { name: "full-stack", weight: 1, run: f_c10 },
     ],
     runs_quick: 600_000,
-    runs_thorough: 60_000_000,
+    runs_thorough: 18_000_000,
     cap_quick_s: 60,
     cap_thorough_s: 900,
     rule: "same runs as C09 (different run indices are not shared: C10 draws its own); the final result of every query (into_result after Finished, or at pool Timeout) is checked: at most k distinct ids, strictly increasing XOR distance to the target (raw bytes), each asked and answered with a success, predicate results reported with a matching record or flagged initially, and if fewer than k without timeout every certainly-learned candidate was asked; Scenario 'full-stack' (W-F, see C09): every find_node result of a complete node is checked at the API: distinct ids, not the local node, in increasing XOR distance to the target, at most 16, and each id belongs to a node that put a NODES response to the caller on the wire (plaintext read with the key log); service-lookup: tables of up to 36 nodes (more than the k seeds) and a completeness oracle over the records the service accepted from answers",
@@ -108,7 +108,7 @@ pub static C18: CheckSpec = CheckSpec {
         Scenario { name: "filter-conforming", weight: 1, run: worlds::recvfilter::run },
     ],
     runs_quick: 400_000,
-    runs_thorough: 40_000_000,
+    runs_thorough: 19_000_000,
     cap_quick_s: 60,
     cap_thorough_s: 900,
     rule: "one run = one generated arrival schedule (20..420 steps: datagrams from 1-6 IPs x 1-8 node ids, bursts, lulls of 0..31 s, prune ticks, ban/permit list edits) executed twice against a fresh real Filter (with and without the prune ticks: metamorphic pair), quotas burst in {1,2,4,5,8,10} per {0.1,0.5,1,5} s for total / per-IP / per-node; 'conforming' runs generate only traffic that stays within every quota (initial burst, then paced at >= period/burst per key and in total) and demand that nothing is refused; non-trivial = a prune tick occurred or at least one datagram was refused; distinct = distinct hash of the arrival/decision log; sender addresses are IPv4, IPv4-mapped IPv6 and IPv6; the arriving datagrams are of message kind, of handshake kind or a mix (per-run knob): both carry a node id and take the same node stage; ban durations include 100 ms and 1 s (shorter than most quota periods) and list edits include lifting a ban: the window bound must hold across the end of a ban; a refusal of a sender whose expired ban entry is still on the list (the sweep is not part of the filter) is attributed to that entry unless the implementation has shown, by letting such a sender pass, that it does not honour expired entries",
@@ -296,7 +296,7 @@ pub static C13: CheckSpec = CheckSpec {
     level: "exploration",
     scenarios: &[Scenario { name: "handler-traffic", weight: 6, run: c13_run }, Scenario { name: "full-stack", weight: 1, run: f_c13 }, Scenario { name: "banned-peer-bypass", weight: 1, run: worlds::h_traffic::run_bypass }],
     runs_quick: 40_000,
-    runs_thorough: 2_000_000,
+    runs_thorough: 1_900_000,
     cap_quick_s: 75,
     cap_thorough_s: 1200,
     rule: "same world and fault profiles as C04 (packet filter on in half of the handlers) plus malicious peers (second WHOAREYOU, forged WHOAREYOU, random packets from unknown parties whose challenge is never answered); the shared exemption map is compared with the harness's ledger after every handler output (upper bound) and must be empty at quiescence; non-trivial = at least one fault fired; distinct = distinct event-log hash; banned-peer-bypass: victim with the packet filter on, the peer's IP banned: the victim's own requests to it must be answered (exemption) and the peer's unsolicited requests must leave no trace; Scenario 'full-stack': 2-5 complete honest Discv5 nodes (API, service, handler, tables) on the virtual network with drop/duplicate/delay/bit-flip/late-replay/partition/restart faults and API calls (find_node incl. targets adjacent to a peer's id, send_ping, talk_req, find_node_designated_peer); all exemption maps must be empty once every API call returned; lower bound: the exemptions for an address are at least the requests to it that were transmitted (request-transmission log) and have no outcome yet; challenges are tracked per (address, claimed node id); banned-peer-bypass: while the victim waits for the banned peer's answer another endpoint on the same IP (other port) sends an unsolicited packet, which must leave no trace; malicious peers also send a WHOAREYOU that echoes the nonce of a request in flight from another endpoint than the dialled one (the peer's IP on another port, a third party)",
